@@ -26,17 +26,20 @@ CLAIMED['C19'] = dict(tech='compiler-computed layouts for a (T,C) grid + paired-
 CLAIMED['C09'] = dict(tech='guard-dominance + sibling deviance on divisions by background frequencies, relational matching of reductions and validation exits',
     text='Static (part): every division by a background frequency is dominated by a zero test of the same value (deviance rule over 4 sites); the one- and two-step '
          'log-odds routes share the zero convention; min/max score sum a per-row min/max over all non-wildcard columns with the natural order; validation exits '
-         'exist with the right polarity and dominate Ok construction; counting increments (position, symbol). The floating-point arithmetic itself is not decided.',
+         'exist with the right polarity and dominate Ok construction, with the extent of each validation (every row, every cell, every frequency); counting increments (position, symbol); '
+         'Background::from_counts writes every symbol index; every conversion that takes a background carries that background in its result. The floating-point arithmetic itself is not decided.',
     ref='DESIGN.md §4 C09')
 
 CLAIMED['C02'] = dict(tech='guard dominance / check-before-use on the scanner loop, linear-form position formula, estimate-direction (UP/DOWN) classification of the 8-bit comparisons',
     text='Static (part): in Scanner::next the block maximum is never unwrapped unguarded, a candidate index is bounded by the number of valid positions before it is rescored, '
          'the position formula is col*(rows-wrap)+block start+row, the exact and 8-bit comparisons are inclusive with the 8-bit threshold an under-estimate, the block ranges partition the sequence rows, '
-         'and hits are pushed once and only popped. These are necessary conditions of the property on every input; numerical equality of scores is reduced to C01.',
+         'hits are pushed once and only popped, every score wrapper resizes the reused buffer on every path, every 8-bit accumulation feeding the pre-filter saturates, '
+         'and the block maximum that gates a block covers all its rows and columns. These are necessary conditions of the property on every input; numerical equality of scores is reduced to C01.',
     ref='DESIGN.md §4 C02')
 CLAIMED['C03'] = dict(tech='estimate-direction (UP/DOWN) dataflow on the pruning bound + guard dominance on every update of the best hit',
     text='Static (part): every value assigned to the pruning bound of Scanner::max is scale(exact score) (an under-estimate), all 8-bit tests are inclusive, candidates are bounded before rescoring, '
-         'best is seeded from buffered hits >= threshold and replaced only under an exact comparison (first candidate: score >= threshold). With C08 these imply exact maximality (paper argument).',
+         'best is seeded from buffered hits >= threshold and replaced only under an exact comparison on every path into the replacement (first candidate: score >= threshold), '
+         'the block maximum covers all rows and columns of the block. With C08 these imply exact maximality (paper argument).',
     ref='DESIGN.md §4 C03')
 CLAIMED['C08'] = dict(tech='estimate-direction analysis: rounding-direction and field-plumbing rules on to_discrete/scale, saturation inventory over every Score<u8> implementation, orientation of pruning comparisons',
     text='Static: cells are ceil((x-offset_i)/factor) (UP) and the threshold mapping is floor((s-offset)/factor) (DOWN) over the same stored fields; every 8-bit accumulation reachable from a '
